@@ -1006,7 +1006,7 @@ class FunctionScope(Scope):
     name_to_current_definition_nodes: SubScope
     usage_to_definition_nodes: dict[tuple[Node, Varname], list[Node]]
     definition_node_to_value: dict[Node, Value]
-    name_to_all_definition_nodes: dict[Varname, set[Node]]
+    name_to_all_definition_nodes: dict[Varname, dict[Node, None]]
     name_to_composites: dict[Varname, set[CompositeVariable]]
     referencing_value_vars: dict[Varname, Value]
     accessed_from_special_nodes: set[Varname]
@@ -1028,7 +1028,8 @@ class FunctionScope(Scope):
         self.name_to_current_definition_nodes = defaultdict(list)
         self.usage_to_definition_nodes = defaultdict(list)
         self.definition_node_to_value = {_UNINITIALIZED: _empty_constrained}
-        self.name_to_all_definition_nodes = defaultdict(set)
+        # the inner dicts are used as insertion-ordered sets
+        self.name_to_all_definition_nodes = defaultdict(dict)
         self.name_to_composites = defaultdict(set)
         self.referencing_value_vars = defaultdict(lambda: UNINITIALIZED_VALUE)
         # Names that are accessed from a None node context (e.g., from a nested function). These
@@ -1119,7 +1120,7 @@ class FunctionScope(Scope):
             # After we assign to a variable, reset any constraints on its
             # members.
             self.name_to_current_definition_nodes[composite] = []
-        self.name_to_all_definition_nodes[varname].add(node)
+        self.name_to_all_definition_nodes[varname][node] = None
         self._add_composite(varname)
         return frozenset([node])
 
@@ -1181,10 +1182,10 @@ class FunctionScope(Scope):
                 return EMPTY_ORIGIN
         return self._resolve_origin(definers)
 
-    def get_all_definition_nodes(self) -> dict[Varname, builtins.set[Node]]:
+    def get_all_definition_nodes(self) -> dict[Varname, dict[Node, None]]:
         """Return a copy of name_to_all_definition_nodes."""
         return {
-            key: set(nodes) for key, nodes in self.name_to_all_definition_nodes.items()
+            key: dict(nodes) for key, nodes in self.name_to_all_definition_nodes.items()
         }
 
     @contextlib.contextmanager
@@ -1214,7 +1215,7 @@ class FunctionScope(Scope):
             yield inner_scope
         new_defn_nodes = self.get_all_definition_nodes()
         rest_scope = {
-            key: list(nodes - old_defn_nodes.get(key, set()))
+            key: [node for node in nodes if node not in old_defn_nodes.get(key, {})]
             for key, nodes in new_defn_nodes.items()
             if key != LEAVES_SCOPE and key != LEAVES_LOOP
         }
